@@ -1,12 +1,17 @@
 import KsVerif.Base.Verdict
 import KsVerif.Api.Progress
 import KsVerif.Sched.Driver
+import KsVerif.Redis.Driver
 open KsVerif
 
 /-- One case: family, payload, implementation observation → verdict. -/
 def judge (fam payload impl : String) : Verdict :=
   match fam with
   | "progress" => Progress.judge payload impl
+  | "redis.conv" => Redis.Driver.judgeConv payload impl
+  | "redis.convsplit" => Redis.Driver.judgeConv payload impl (splitMode := true)
+  | "redis.raw" => Redis.Driver.judgeRaw payload impl
+  | "redis.split" => Redis.Driver.judgeRaw payload impl (splitMode := true)
   | "sched.emit" => Sched.judgeEmit payload impl
   | "sched.dump" => Sched.judgeDump payload impl
   | _ =>
